@@ -261,11 +261,14 @@ func (db *DB) compactionExitTransact() {
 }
 
 func (db *DB) compactionCommit(name string, rec *sessionRecord) {
-	db.compCommitLk.Lock()
-	defer db.compCommitLk.Unlock() // Defer is necessary.
-	verifTrace(db.s, "cl:lock", 0)
-	defer verifTrace(db.s, "cl:unlock", 0)
 	db.compactionTransactFunc(name+"@commit", func(cnt *compactionTransactCounter) error {
+		// Hold the commit lock for one attempt only: a commit that keeps
+		// failing is retried forever, and Transaction.Commit, which takes
+		// the same lock, must not wait for that.
+		db.compCommitLk.Lock()
+		defer db.compCommitLk.Unlock() // Defer is necessary.
+		verifTrace(db.s, "cl:lock", 0)
+		defer verifTrace(db.s, "cl:unlock", 0)
 		return db.s.commit(rec, true)
 	}, nil)
 }
